@@ -216,6 +216,7 @@ pub struct Invocation
     pub trace : Vec<verif_sched::Event>,
     pub choices : Vec<(usize, usize)>,
     pub snapshots : Vec<(Disk, String)>,
+    pub exec_snapshots : Vec<(usize, Vec<String>, BTreeMap<String, Vec<u8>>)>,
 }
 
 pub struct Driver
@@ -234,6 +235,13 @@ impl Driver
     pub fn new(mode : ClockMode, t0 : u64) -> Driver
     {
         Driver{sys : MemSys::new(mode, t0), record_snapshots : false}
+    }
+
+    /// a fresh driver on a copy of this one's disk and clock (to run the same invocation under another schedule)
+    pub fn fork(&self) -> Driver
+    {
+        let (disk, mode, clock) = self.sys.with(|s| (s.disk.clone(), s.mode, s.clock));
+        Driver{sys : MemSys::from_disk(disk, mode, clock), record_snapshots : self.record_snapshots}
     }
 
     /// apply a user operation (not build / clean)
@@ -266,6 +274,7 @@ impl Driver
             s.commands.clear();
             s.log_calls = true;
             s.snapshots = if self.record_snapshots { Some(vec![]) } else { None };
+            s.exec_snapshots = Some(vec![]);
         });
         let sys = self.sys.clone();
         let mut printer = RecordingPrinter::new();
@@ -285,10 +294,10 @@ impl Driver
             },
             _ => panic!("not an invocation"),
         };
-        let (calls, commands, snapshots) = self.sys.with(|s|
+        let (calls, commands, snapshots, exec_snapshots) = self.sys.with(|s|
         {
             s.log_calls = false;
-            (std::mem::take(&mut s.calls), std::mem::take(&mut s.commands), s.snapshots.take().unwrap_or(vec![]))
+            (std::mem::take(&mut s.calls), std::mem::take(&mut s.commands), s.snapshots.take().unwrap_or(vec![]), s.exec_snapshots.take().unwrap_or(vec![]))
         });
         Invocation
         {
@@ -303,6 +312,7 @@ impl Driver
             trace : report.trace,
             choices : report.choices,
             snapshots : snapshots,
+            exec_snapshots : exec_snapshots,
         }
     }
 
